@@ -84,20 +84,23 @@ IsValidCharIn(s, enc) == IF enc = "utf8" THEN IsChar(s) ELSE IF enc = "ascii" TH
 IsProperCharPrefixIn(s, enc) == enc = "utf8" /\ IsProperCharPrefix(s)
 \* codes a key may be reported with: its table name in this naming mode; a sequence the mode's table
 \* does not name comes back as its text (curses naming: or as the xNN name of an undecodable byte)
-KeyCodes(s, mode) ==
+KeyCodes(s, enc, mode) ==
   IF mode = "bytes" THEN {4}
   ELSE IF mode = "curtsies" THEN (IF s \in CurtsiesKeys THEN {10 + NameIn(Curtsies, s)} ELSE {2})
-  ELSE (IF s \in CursesKeys THEN {10 + NameIn(Curses, s)} ELSE {2} \cup {10 + XNames[k][2] : k \in 1..Len(XNames)})
+  ELSE (IF s \in CursesKeys THEN {10 + NameIn(Curses, s)}
+        ELSE IF Decodable(s, enc) THEN {2}                                  \* a character (or text) is reported as itself
+        ELSE IF Len(s) = 1 /\ s \in KeysOf(XNames) THEN {10 + NameIn(XNames, s)}   \* an undecodable byte: its own xNN name
+        ELSE {2})
 
 \* under utf-8 the single-byte Meta keys 0x80-0xFF count as recognised only when they end a read
 MetaCollision(s, enc) == enc = "utf8" /\ Len(s) = 1 /\ s[1] >= 128
 
 Allowed(s, enc, mode, full) ==
   IF s \in TableKeys /\ ~MetaCollision(s, enc) THEN
-       (IF s \in KeyPrefixes /\ ~full THEN {0} \cup KeyCodes(s, mode)     \* may wait for the longer sequence
-        ELSE KeyCodes(s, mode))                                          \* whole sequence -> one key under its table name
+       (IF s \in KeyPrefixes /\ ~full THEN {0} \cup KeyCodes(s, enc, mode)     \* may wait for the longer sequence
+        ELSE KeyCodes(s, enc, mode))                                          \* whole sequence -> one key under its table name
   ELSE IF MetaCollision(s, enc) /\ s \in TableKeys THEN
-       (IF full THEN KeyCodes(s, mode)
+       (IF full THEN KeyCodes(s, enc, mode)
         ELSE IF IsProperCharPrefix(s) THEN {0} ELSE {-1})
   ELSE IF IsValidCharIn(s, enc) THEN {IF mode = "bytes" THEN 4 ELSE 2}   \* a character is reported as itself
   ELSE IF IsProperCharPrefixIn(s, enc) THEN {0}                       \* keep asking, never fail
